@@ -30,5 +30,9 @@ func handleINT(ocode ocode.Ocode) ([]byte, error) {
 		return nil, fmt.Errorf("INT number %d out of range", num)
 	}
 
+	if num == 3 {
+		// pass1 は INT 3 を 1 バイト (CC) として数えている
+		return []byte{0xCC}, nil
+	}
 	return []byte{0xCD, byte(num)}, nil
 }
